@@ -81,13 +81,16 @@ CHECKS = {
     'C18': ('other', 'index-stability taint (length-changing adaptor before enumerate) + who-may-index rules over MIR',
             'R18a header-name->index maps are built from positions in the unfiltered header row; R18b the converter reads cells only by '
             'header name; R18c rows are indexed only with the stored index. ' + PARTIAL % 'C18'),
+    'C19': ('other', 'constant + comparison normalisation of the candidate window, pool-consumption data flow, guarded-Ok rule, loop must-pass-through over the matcher',
+            'R19a candidates are trades with benefit date <= trade date <= benefit date + 5 days; R19b matched trades are removed from the very pool that later '
+            'candidates and the manual trades come from; R19c Ok only when no matching error was recorded; R19d one row per benefit and per left-over trade, pushed '
+            'unconditionally, then sorted. The text parsers and the share-count combination search are NOT decided. ' + PARTIAL % 'C19'),
     'C20': ('other', 'sanitiser must-pass-through (provenance) + grow-only guard (edge condition) rules over MIR',
             'R20a every page-group list reaching the optimised page iterator comes from safe_page_chunks_with_remainder*; R20b the '
             'loaded-page cache is only resized under len() < new_len and never truncated. ' + PARTIAL % 'C20'),
 }
 
 NOT_APPLICABLE = {
-    'C19': 'regex extraction from free text plus a subset-sum search over run-time share counts and dates; "each trade exactly once" depends on values',
 }
 
 PENDING = 'rule set designed in DESIGN.md section 5 but not built yet in this revision; no check is registered until it is'
